@@ -1,7 +1,7 @@
 (* C14 -- the small rewriting passes: main theorems restated (models: Lit.v / GenLit.v, Rta.v; semantics: Sem.v). *)
 From Coq Require Import ZArith NArith Bool List String Lia.
 From Verif Require Import Base.Word256 Base.PyInt C14.RangeBase C14.RangeFix C14L.LitBase C14L.GenLit C14L.Sem C14L.Lit C14L.Rta
-  C14L.SemProofs C14L.LitProofs C14L.RtaProofs C14L.AcProofs.
+  C14L.SemProofs C14L.LitProofs C14L.RtaProofs C14L.AcProofs C14L.AssertComb C14L.AcStep.
 Import ListNotations.
 Open Scope string_scope.
 Open Scope Z_scope.
@@ -29,8 +29,13 @@ Theorem C14L_rta_pass_correct : forall f nv, func_below nv f = true -> beh_equiv
 Proof. exact rta_pass_correct. Qed.
 Print Assumptions C14L_rta_pass_correct.
 
-(* AssertCombinerPass, PARTIAL (value level only; the pass-level statement ac_pass -> beh_equiv is not proved):
-   the merged assertion passes iff both original assertions pass, for all words *)
+(* AssertCombinerPass: the model of the whole pass (iteration of the merge step, AssertComb.v) preserves behaviour, for every
+   function, message table and fresh-variable counter (the step is only applied while the counter is above all variables) *)
+Theorem C14L_ac_pass_correct : forall f M nv, beh_equiv f (ac_pass f M nv).
+Proof. exact ac_pass_correct. Qed.
+Print Assumptions C14L_ac_pass_correct.
+
+(* value level: the merged assertion passes iff both original assertions pass, for all words *)
 Theorem C14L_ac_combined_assert_partial : forall p q, 0 <= p -> 0 <= q ->
   (w_iszero (w_or p q) <> 0 <-> (w_iszero p <> 0 /\ w_iszero q <> 0)).
 Proof. exact ac_combined_assert_partial. Qed.
